@@ -30,9 +30,12 @@ def run(tier, rep, replay=None):
     abad, _ = C.validate_lines(w, "Trace_Conc", "Lines.cfg", alines)
     for i in abad:
         ln = alines[i]
+        if ln["ev"] == "retain":
+            rep.violation("retain:%s:%s" % (ln["call"], "panic" if ln["panics"] else "object-changes-when-input-buffer-is-overwritten"), {"observed": ln, "explain": "the decoded object kept a reference to the caller's buffer (Trace_Conc.tla, retain)"})
+            continue
         what = "panic" if ln["panics"] else ("argument-modified" if not ln["args_intact"] else ("writes-past-argument" if not ln["canaries_intact"] else "result-depends-on-layout"))
         rep.violation("args:%s:%s" % (ln["call"], what), {"observed": ln, "explain": "a byte-slice argument presented as a window of a larger buffer: the call wrote to the caller's memory, or returned something else than on private copies"})
-    rep.add(args_calls=len(alines), args_kinds=sorted({l["call"] for l in alines}))
+    rep.add(args_calls=sum(1 for l in alines if l["ev"] == "args"), args_kinds=sorted({l["call"] for l in alines if l["ev"] == "args"}), decode_then_wipe_objects=sum(1 for l in alines if l["ev"] == "retain"))
     acc, rejected, states = C.validate_stateful(w, "Trace_PureCalls", "Trace_PureCalls.cfg", lines, max_rounds=40, timeout=3000)
     for t, ln, tail in rejected:
         if t == -1:
